@@ -46,6 +46,32 @@ theorem sign_mul_natAbs (i : Int) : (if i < 0 then (-1:Int) else 1) * (i.natAbs 
   · rename_i h; rw [Int.ofNat_natAbs_of_nonpos (le_of_lt h)]; ring
   · rename_i h; rw [Int.natAbs_of_nonneg (not_lt.mp h)]; ring
 
+theorem tdiv_natCast_eq (i : Int) (P : Nat) :
+    i.tdiv (P : Int) = (if i < 0 then -1 else 1) * ((i.natAbs / P : Nat) : Int) := by
+  cases i with
+  | ofNat m =>
+    have : ¬ (Int.ofNat m < 0) := by simp
+    simp only [this, if_false, one_mul]
+    rfl
+  | negSucc m =>
+    have : (Int.negSucc m < 0) := Int.negSucc_lt_zero m
+    simp only [this, if_true]
+    show -((((m+1) / P : Nat)) : Int) = _
+    simp [Int.natAbs_negSucc]
+
+theorem tmod_natCast_eq (i : Int) (P : Nat) :
+    i.tmod (P : Int) = (if i < 0 then -1 else 1) * ((i.natAbs % P : Nat) : Int) := by
+  cases i with
+  | ofNat m =>
+    have : ¬ (Int.ofNat m < 0) := by simp
+    simp only [this, if_false, one_mul]
+    rfl
+  | negSucc m =>
+    have : (Int.negSucc m < 0) := Int.negSucc_lt_zero m
+    simp only [this, if_true]
+    show -((((m+1) % P : Nat)) : Int) = _
+    simp [Int.natAbs_negSucc]
+
 theorem Dec.value_setScale_up (d : Dec) (ns : Int) (h : d.scale ≤ ns) :
     (d.setScale ns).value = d.value := by
   unfold Dec.setScale
